@@ -32,7 +32,9 @@ META = {
     'assumptions': ['A1', 'A2', 'A5', 'A7', 'weights are positive (A3)'],
     'not_decided': [
         'adjoints of FFT / wavelet based operators, ray transforms (external kernels, K9)',
-        'MatrixOperator, sampling operators, product-space block operators: not under contract yet',
+        'MatrixOperator, sampling operators: not under contract (bounded operator pool only)',
+        'block operators: the product spaces are unweighted (the constructors reject weighted ones); ProductSpaceOperator.__init__ (scipy sparse conversion) is not interpreted, the operator is built field-wise; ComponentProjection with index lists',
+        'ResizingOperator: shapes are enumerated (8 shape pairs incl. mixed grow / shrink) - the call claim is per shape pair, the transposition itself is C16',
         'finite-difference and resizing operators on spaces that are not uniformly weighted (nodes on the boundary): see known findings',
     ],
 }
